@@ -7,12 +7,12 @@ import (
 )
 
 const (
-	fnMove          = dmapPkg + ".(*fragment).Move"
-	fnMoveHandler   = dmapPkg + ".(*Service).moveFragmentCommandHandler"
-	fnValidatePack  = dmapPkg + ".(*Service).validateFragmentPack"
-	fnMergeFrags    = dmapPkg + ".(*DMap).mergeFragments"
-	fnMergeFunc     = dmapPkg + ".(*DMap).fragmentMergeFunction"
-	fnCheckOwner    = dmapPkg + ".(*Service).checkOwnership"
+	fnMove         = dmapPkg + ".(*fragment).Move"
+	fnMoveHandler  = dmapPkg + ".(*Service).moveFragmentCommandHandler"
+	fnValidatePack = dmapPkg + ".(*Service).validateFragmentPack"
+	fnMergeFrags   = dmapPkg + ".(*DMap).mergeFragments"
+	fnMergeFunc    = dmapPkg + ".(*DMap).fragmentMergeFunction"
+	fnCheckOwner   = dmapPkg + ".(*Service).checkOwnership"
 )
 
 func init() {
@@ -34,6 +34,8 @@ func init() {
 			balancerKeepsOwnCopies(r)
 			kvImportPropagates(r)
 			kvSingleLiveVersion(r)
+			c17Pack(r)
+			c10Idle(r)
 		},
 	})
 }
